@@ -29,6 +29,16 @@ def _vec(v):
     return np.array(v).reshape(3, 1, 1, 1)
 
 
+def _stretch(w, u, p):
+    """documented vortex-stretching flux p * (omega . grad_h) u (centred differences, no 1/2h) on the interior, zero elsewhere"""
+    w = np.asarray(w, dtype=np.float64); u = np.asarray(u, dtype=np.float64)
+    out = np.zeros_like(w)
+    I = R.inner(w[0], 1)
+    for k in range(3):
+        out[k][I] = p * sum(w[j][I] * R.dc(u[k], j) for j in range(3))
+    return out
+
+
 def wrapper_cases(seed, tier, real_t=np.float64):
     cases = []
     nrep = 1 if tier == "quick" else 2
@@ -49,11 +59,13 @@ def wrapper_cases(seed, tier, real_t=np.float64):
         sz = {"nz": nz, "ny": ny, "nx": nx}
         f = A(*S); v = float(r.normal())
         k = spne.gen_set_fixed_val_pyst_kernel_3d(real_t=real_t)
-        add("set_fixed_val_3d", {**sz, "fixed_val": real_t(v)}, {"field": f}, lambda k=k, f=f, v=v: k(field=f, fixed_val=v), "set_fixed_val_3d")
+        add("set_fixed_val_3d", {**sz, "fixed_val": real_t(v)}, {"field": f}, lambda k=k, f=f, v=v: k(field=f, fixed_val=v), "set_fixed_val_3d",
+            ref=lambda b, v=v: {"field": np.full_like(b["field"], v)})
         vf = A(3, *S); vv = [float(x) for x in r.normal(size=3)]
         k = spne.gen_set_fixed_val_pyst_kernel_3d(real_t=real_t, field_type="vector")
         add("set_fixed_val_vec_3d", {**sz, "vx": real_t(vv[0]), "vy": real_t(vv[1]), "vz": real_t(vv[2])}, {"vector_field": vf},
-            lambda k=k, vf=vf, vv=vv: k(vector_field=vf, fixed_vals=vv), "set_fixed_val_3d[vector]")
+            lambda k=k, vf=vf, vv=vv: k(vector_field=vf, fixed_vals=vv), "set_fixed_val_3d[vector]",
+            ref=lambda b, vv=vv: {"vector_field": np.zeros_like(b["vector_field"]) + _vec(vv)})
         for w in ([1, 3] if tier == "quick" else [1, 2, 4]):
             f = A(*S); v = float(r.normal())
             k = spne.gen_set_fixed_val_at_boundaries_pyst_kernel_3d(real_t=real_t, width=w)
@@ -62,21 +74,25 @@ def wrapper_cases(seed, tier, real_t=np.float64):
             vf = A(3, *S); vv = [float(x) for x in r.normal(size=3)]
             k = spne.gen_set_fixed_val_at_boundaries_pyst_kernel_3d(real_t=real_t, width=w, field_type="vector")
             add("set_boundary_vec_3d", {**sz, "width": w, "vx": real_t(vv[0]), "vy": real_t(vv[1]), "vz": real_t(vv[2])}, {"vector_field": vf},
-                lambda k=k, vf=vf, vv=vv: k(vector_field=vf, fixed_vals=vv), f"set_fixed_val_at_boundaries_3d[vector,w={w}]")
+                lambda k=k, vf=vf, vv=vv: k(vector_field=vf, fixed_vals=vv), f"set_fixed_val_at_boundaries_3d[vector,w={w}]",
+                ref=lambda b, w=w, vv=vv: {"vector_field": np.where(R.ring_mask(b["vector_field"].shape[1:], w)[None], _vec(vv), b["vector_field"])})
         a, b, o = A(*S), A(*S), A(*S)
         k = spne.gen_elementwise_sum_pyst_kernel_3d(real_t=real_t)
-        add("elementwise_sum_3d", sz, {"sum_field": o, "field_1": a, "field_2": b}, lambda k=k, a=a, b=b, o=o: k(sum_field=o, field_1=a, field_2=b), "elementwise_sum_3d")
+        add("elementwise_sum_3d", sz, {"sum_field": o, "field_1": a, "field_2": b}, lambda k=k, a=a, b=b, o=o: k(sum_field=o, field_1=a, field_2=b), "elementwise_sum_3d",
+            ref=lambda b: {"sum_field": b["field_1"] + b["field_2"]})
         va, vb, vo = A(3, *S), A(3, *S), A(3, *S)
         k = spne.gen_elementwise_sum_pyst_kernel_3d(real_t=real_t, field_type="vector")
         add("elementwise_sum_vec_3d", sz, {"sum_field": vo, "field_1": va, "field_2": vb}, lambda k=k, va=va, vb=vb, vo=vo: k(sum_field=vo, field_1=va, field_2=vb),
             "elementwise_sum_3d[vector]", ref=lambda b: {"sum_field": b["field_1"] + b["field_2"]})
         a, o = A(*S), A(*S)
         k = spne.gen_elementwise_copy_pyst_kernel_3d(real_t=real_t)
-        add("elementwise_copy_3d", sz, {"field": o, "rhs_field": a}, lambda k=k, a=a, o=o: k(field=o, rhs_field=a), "elementwise_copy_3d")
+        add("elementwise_copy_3d", sz, {"field": o, "rhs_field": a}, lambda k=k, a=a, o=o: k(field=o, rhs_field=a), "elementwise_copy_3d",
+            ref=lambda b: {"field": b["rhs_field"].copy()})
         a, b, o = A(*S), A(*S), A(*S); pa, pb = (float(x) for x in r.normal(size=2))
         k = spne.gen_elementwise_saxpby_pyst_kernel_3d(real_t=real_t)
         add("elementwise_saxpby_3d", {**sz, "pa": real_t(pa), "pb": real_t(pb)}, {"sum_field": o, "field_1": a, "field_2": b},
-            lambda k=k, a=a, b=b, o=o, pa=pa, pb=pb: k(sum_field=o, field_1=a, field_2=b, field_1_prefac=pa, field_2_prefac=pb), "elementwise_saxpby_3d")
+            lambda k=k, a=a, b=b, o=o, pa=pa, pb=pb: k(sum_field=o, field_1=a, field_2=b, field_1_prefac=pa, field_2_prefac=pb), "elementwise_saxpby_3d",
+            ref=lambda b, pa=pa, pb=pb: {"sum_field": pa * b["field_1"] + pb * b["field_2"]})
         va, vb, vo = A(3, *S), A(3, *S), A(3, *S)
         k = spne.gen_elementwise_saxpby_pyst_kernel_3d(real_t=real_t, field_type="vector")
         add("elementwise_saxpby_vec_3d", {**sz, "pa": real_t(pa), "pb": real_t(pb)}, {"sum_field": vo, "field_1": va, "field_2": vb},
@@ -100,7 +116,9 @@ def wrapper_cases(seed, tier, real_t=np.float64):
             va, vo = A(3, *S), A(3, *S)
             k = spne.gen_diffusion_flux_pyst_kernel_3d(real_t=real_t, reset_ghost_zone=reset, field_type="vector")
             add("diffusion_flux_vec_3d", {**sz, "reset": reset, "prefactor": real_t(p)}, {"vector_field_diffusion_flux": vo, "vector_field": va},
-                lambda k=k, va=va, vo=vo, p=p: k(vector_field_diffusion_flux=vo, vector_field=va, prefactor=p), f"diffusion_flux_3d[vector,reset={reset}]")
+                lambda k=k, va=va, vo=vo, p=p: k(vector_field_diffusion_flux=vo, vector_field=va, prefactor=p), f"diffusion_flux_3d[vector,reset={reset}]",
+                ref=lambda b, p=p, reset=reset: {"vector_field_diffusion_flux": np.array([
+                    R.laplacian_flux(b["vector_field"][c_], p, b["vector_field_diffusion_flux"][c_], reset) for c_ in range(3)])})
             va, vo = A(3, *S), A(3, *S); p = float(r.uniform(0.1, 2))
             k = spne.gen_curl_pyst_kernel_3d(real_t=real_t, reset_ghost_zone=reset)
 
@@ -193,12 +211,15 @@ def wrapper_cases(seed, tier, real_t=np.float64):
         k = spne.gen_vorticity_stretching_timestep_euler_forward_pyst_kernel_3d(real_t=real_t)
         add("stretching_timestep_euler_3d", {**sz, "dt_by_2_dx": real_t(p)}, {"vorticity_field": w, "velocity_field": vu, "vorticity_stretching_flux_field": fl},
             lambda k=k, w=w, vu=vu, fl=fl, p=p: k(vorticity_field=w, velocity_field=vu, vorticity_stretching_flux_field=fl, dt_by_2_dx=p),
-            "vorticity_stretching_timestep_euler_forward_3d")
+            "vorticity_stretching_timestep_euler_forward_3d",
+            ref=lambda b, p=p: {"vorticity_field": b["vorticity_field"].astype(np.float64) + _stretch(b["vorticity_field"], b["velocity_field"], p)})
         w, vu, fl, mid = A(3, *S), A(3, *S), A(3, *S), A(3, *S)
         k = spne.gen_vorticity_stretching_timestep_ssprk3_pyst_kernel_3d(real_t=real_t, midstep_buffer_vector_field=mid)
         add("stretching_timestep_ssprk3_3d", {**sz, "dt_by_2_dx": real_t(p)}, {"vorticity_field": w, "velocity_field": vu, "vorticity_stretching_flux_field": fl, "midstep": mid},
             lambda k=k, w=w, vu=vu, fl=fl, p=p: k(vorticity_field=w, velocity_field=vu, vorticity_stretching_flux_field=fl, dt_by_2_dx=p),
-            "vorticity_stretching_timestep_ssprk3_3d")
+            "vorticity_stretching_timestep_ssprk3_3d",
+            ref=lambda b, p=p: {"vorticity_field": (lambda w0, A: w0 + A(w0) + A(A(w0)) / 2 + A(A(A(w0))) / 6)(
+                b["vorticity_field"].astype(np.float64), lambda x, b=b, p=p: _stretch(x, b["velocity_field"], p))})
         # filters: dirty work buffers, every order and type
         for conv, order in itertools.product((False, True), ([0, 1, 2] if tier == "quick" else [0, 1, 2, 3, 4])):
             S2 = _shape(r, 4, 7)
@@ -215,7 +236,8 @@ def wrapper_cases(seed, tier, real_t=np.float64):
         k = spne.gen_laplacian_filter_kernel_3d(filter_order=2, filter_flux_buffer=fb1, field_buffer=fb2, real_t=real_t, field_type="vector", filter_type="convolution")
         fb1[...] = r.normal(size=S2).astype(real_t); fb2[...] = r.normal(size=S2).astype(real_t)
         add("filter_vec_3d", {"nz": S2[0], "ny": S2[1], "nx": S2[2], "conv": True, "order": 2}, {"vector_field": vf, "filter_flux_buffer": fb1, "field_buffer": fb2},
-            lambda k=k, vf=vf: k(vector_field=vf), "laplacian_filter_3d[vector,convolution,order=2]")
+            lambda k=k, vf=vf: k(vector_field=vf), "laplacian_filter_3d[vector,convolution,order=2]",
+            ref=lambda b: {"vector_field": np.array([R.laplacian_filter(c_.astype(np.float64), 2, "convolution") for c_ in b["vector_field"]])})
         # boundary-zone damping
         for w_, ftype in ([(0, "scalar"), (1, "scalar"), (2, "vector")] if tier == "quick" else [(w_, t_) for w_ in range(0, 7) for t_ in ("scalar", "vector") if (w_ + (t_ == "vector")) % 2 == 0 or w_ < 3]):
             lo = 2 * max(w_, 2) + 1
